@@ -58,7 +58,7 @@ KINDS = {
     'li', 'mul', 'div', 'floordiv', 'ceildiv', 'bin', 'neg', 'inv', 'not', 'cmp',
     'and', 'or', 'band', 'bor', 'ite', 'tuple', 'list', 'set', 'dict', 'kv',
     'concat', 'fstr', 'ss', 'cat', 'adj', 'phi', 'after', 'elem', 'idx', 'bv',
-    'comp', 'gen', 'lam', 'fn', 'enter', 'yieldv', 'unk', 'await', 'starred',
+    'comp', 'gen', 'lam', 'fn', 'enter', 'yieldv', 'unk', 'await', 'starred', 'mut',
 }
 
 
@@ -481,6 +481,13 @@ def call(f, args=(), kws=()):
     return ('call', f, args, kws)
 
 
+def unmut(t):
+    """Object identity behind a versioned ('mut') term."""
+    while t[0] == 'mut':
+        t = t[1]
+    return t
+
+
 def kw(name, t):
     return ('kw', name, t)
 
@@ -768,6 +775,8 @@ def show(t, depth=0):
         return f'<fn {t[1]}>'
     if k == 'enter':
         return f'enter({s(t[1])})'
+    if k == 'mut':
+        return f'{s(t[1])}′{t[2]}'
     if k == 'unk':
         return f'<?{t[1]}>'
     if k == 'yieldv':
